@@ -1,7 +1,7 @@
 (* C01  Authenticated encryption round-trips; every API form yields the same
    bytes.  Statements only (proofs in Refine/Aead.v).  The instantiated model
    is XSalsa20 (Salsa20 spec) + the Poly1305 implementation model. *)
-From Dryoc Require Import Impl.SecretBox Refine.Aead.
+From Dryoc Require Import Impl.SecretBox Impl.Box Refine.Aead Refine.Box.
 Import SecretBoxImpl.
 Open Scope Z_scope.
 
@@ -35,6 +35,43 @@ Proof.
   - exact (sb_open_easy_inplace_roundtrip m n k).
   - exact (sb_open_detached_inplace_roundtrip m n k).
 Qed.
+
+(* the public-key forms are the secret-key forms under the precomputed key
+   HSalsa20(X25519(sk, pk), 0^16), for every message, nonce and key pair *)
+Theorem C01_box_is_secretbox : forall cbuf pad m n pk sk,
+  length cbuf = (length m + 16)%nat -> length pad = 16%nat ->
+  BoxImpl.easy cbuf m n pk sk = Ok (box m n (ScalarmultImpl.beforenm pk sk)) /\
+  BoxImpl.easy_inplace (m ++ pad) n pk sk = Ok (box m n (ScalarmultImpl.beforenm pk sk)) /\
+  (forall mbuf c, BoxImpl.open_easy mbuf c n pk sk = open_easy_c mbuf c n (ScalarmultImpl.beforenm pk sk)).
+Proof.
+  intros cbuf pad m n pk sk Hc Hp. repeat split.
+  - exact (box_easy_is_secretbox cbuf m n pk sk Hc).
+  - exact (box_easy_inplace_is_secretbox m pad n pk sk Hp).
+Qed.
+
+(* two parties whose precomputed keys agree (X25519 commutes: the Montgomery group law, an
+   assumption; compared with libsodium for every generated pair) open each other's boxes *)
+Theorem C01_box_roundtrip : forall cbuf mbuf m n pkA skA pkB skB,
+  ScalarmultImpl.beforenm pkB skA = ScalarmultImpl.beforenm pkA skB ->
+  length cbuf = (length m + 16)%nat -> length mbuf = length m ->
+  exists c, BoxImpl.easy cbuf m n pkB skA = Ok c /\ BoxImpl.open_easy mbuf c n pkA skB = (Ok tt, m) /\
+            length c = (length m + 16)%nat.
+Proof. exact box_roundtrip. Qed.
+
+(* sealed boxes: ephemeral public key || box under nonce BLAKE2b-24(epk || recipient pk); the
+   recipient opens what was sealed, for every message and every ephemeral key *)
+Theorem C01_seal_layout : forall cbuf m rpk esk c,
+  BoxImpl.seal cbuf m rpk esk = Ok c ->
+  exists nonce, BoxImpl.seal_nonce (ScalarmultImpl.scalarmult_base esk) rpk = Ok nonce /\
+    firstn 32 c = ScalarmultImpl.scalarmult_base esk /\
+    BoxImpl.easy (skipn 32 cbuf) m nonce rpk esk = Ok (skipn 32 c).
+Proof. exact seal_layout. Qed.
+
+Theorem C01_seal_roundtrip : forall cbuf mbuf m rpk rsk esk,
+  ScalarmultImpl.beforenm rpk esk = ScalarmultImpl.beforenm (ScalarmultImpl.scalarmult_base esk) rsk ->
+  length cbuf = (length m + 48)%nat -> length mbuf = length m ->
+  exists c, BoxImpl.seal cbuf m rpk esk = Ok c /\ BoxImpl.seal_open mbuf c rpk rsk = (Ok tt, m).
+Proof. exact seal_roundtrip. Qed.
 
 (* non-vacuity: a concrete box through the concrete model *)
 Example C01_example :
